@@ -793,9 +793,13 @@ impl Scenario for LazyOpen {
         // failed call may return an error, the next ones read exactly their own range again
         if !ids.is_empty() {
             for round in 0..3u64 {
+                // a successful lookup first: its end position is what a stale cursor cache would hold
+                let prev = ids[rng.usize_below(ids.len())];
+                let prev_end = img.addr.get(&prev).map(|(o, l)| o + u64::from(*l));
+                let _ = sut::get(&mut pm, prev, c.face)?;
                 let id = ids[rng.usize_below(ids.len())];
                 let Some(&(off, len)) = img.addr.get(&id) else { continue };
-                let at = handle.nops() + rng.below(3);
+                let at = handle.nops() + rng.below(4);
                 handle.set_fault(crate::disk::Fault::Transient { at, n: 1 });
                 let r = sut::get(&mut pm, id, c.face)?;
                 handle.set_fault(crate::disk::Fault::None);
@@ -805,8 +809,10 @@ impl Scenario for LazyOpen {
                 }
                 // follow-ups: the tile stored right behind it, the same tile, and one more
                 let end = off + u64::from(len);
-                let neighbour = img.addr.iter().find(|(i, (o, _))| *o == end && c.range.contains(**i)).map(|(i, _)| *i);
-                for fid in [neighbour, Some(id), Some(ids[rng.usize_below(ids.len())])].into_iter().flatten() {
+                let behind = |e: u64| img.addr.iter().find(|(i, (o, _))| *o == e && c.range.contains(**i)).map(|(i, _)| *i);
+                let neighbour = behind(end);
+                let behind_prev = prev_end.and_then(behind);
+                for fid in [behind_prev, neighbour, Some(id), Some(prev), Some(ids[rng.usize_below(ids.len())])].into_iter().flatten() {
                     let Some(&(o2, l2)) = img.addr.get(&fid) else { continue };
                     handle.clear_log();
                     ctx.evals += 1;
@@ -840,5 +846,72 @@ impl Scenario for LazyOpen {
             out.push(to_value(&LazyCase { range: RangeSpec::ALL, ..c.clone() }));
         }
         out
+    }
+}
+
+// ---------------------------------------------------------------------------------------------
+// C03: the three real-world fixtures written by the upstream Go writer
+
+pub struct Fixtures;
+
+const FIXTURES: [&str; 3] = ["stamen_toner(raster)CC-BY+ODbL_z3.pmtiles", "protomaps(vector)ODbL_firenze.pmtiles", "protomaps_vector_planet_odbl_z10_without_data.pmtiles"];
+
+impl Scenario for Fixtures {
+    fn name(&self) -> &'static str {
+        "upstream-fixtures"
+    }
+    fn rule(&self) -> String {
+        "the three archives in /repo/test produced by the upstream Go writer (one with 1.4 M addressed tiles and leaf directories), opened through the sync and the async reader under a short-read (and Pending) schedule and compared with the independent reader on the same bytes; enumerated: 3 files × 2 faces".into()
+    }
+    fn enumerated(&self, _tier: Tier) -> Option<u64> {
+        Some(6)
+    }
+    fn generate(&self, _rng: &mut Rng, _tier: Tier, run: u64) -> Value {
+        serde_json::json!({"file": FIXTURES[(run % 3) as usize], "face": if run < 3 { "Sync" } else { "Async" }})
+    }
+    fn execute(&self, case: &Value, ctx: &mut Ctx) -> V<()> {
+        ctx.evals += 1;
+        ctx.sig(case_sig(case));
+        let name = case["file"].as_str().unwrap_or("");
+        let face = if case["face"] == "Async" { Face::Async } else { Face::Sync };
+        let Ok(image) = std::fs::read(std::path::Path::new("/repo/test").join(name)) else {
+            ctx.bump("fixture_missing", 1);
+            return Ok(());
+        };
+        let h = spec::parse_header(&image).map_err(|e| Violation::new("harness-fixture", e)).unwrap_or_else(|v| panic!("harness: fixture {name}: {}", v.detail));
+        let walk = spec::walk(&image, &h, spec::Limits::VALID).unwrap_or_else(|e| panic!("harness: independent reader cannot walk fixture {name}: {e:?}"));
+        let pol = Policy { rd: crate::disk::Xfer::Random(50_000), wr: crate::disk::Xfer::Full, pend: if face == Face::Async { crate::disk::Pend { rate: 5, burst: 2, inline: 50, ctl: true } } else { crate::disk::Pend::NEVER }, seed: 3 };
+        let disk = SimDisk::new(image.clone(), &pol);
+        let handle = disk.clone();
+        let mut pm = match sut::open(disk, face)? {
+            Ok(p) => p,
+            Err(e) => vio!("C03:fixture-open-failed", "upstream fixture {name} does not open: {e}"),
+        };
+        let ids = sut::ids_sorted(&pm);
+        ensure!(ids.len() == walk.tiles.len() && ids.iter().copied().eq(walk.tiles.keys().copied()), "C03:fixture-id-set", "fixture {name}: opened archive lists {} ids, its directories address {}", ids.len(), walk.tiles.len());
+        ensure!(h.n_addressed == walk.tiles.len() as u64, "C03:fixture-self-check", "fixture {name}: header says {} addressed tiles, independent walk finds {}", h.n_addressed, walk.tiles.len());
+        let step = (ids.len() / 300).max(1);
+        let mut compared = 0u64;
+        for (id, (off, len)) in walk.tiles.iter().step_by(step) {
+            // the planet fixture ships without its tile data: only ranges inside the file are read
+            let Ok(want) = spec::tile_bytes(&image, &h, *off, *len) else { continue };
+            match sut::get(&mut pm, *id, face)? {
+                Ok(Some(b)) => ensure!(b == want, "C03:fixture-tile-bytes", "fixture {name}: tile {id} differs from the bytes at tile-data offset + entry offset"),
+                other => vio!("C03:fixture-tile-missing", "fixture {name}: tile {id}: {:?}", other.map(|o| o.map(|b| b.len()))),
+            }
+            compared += 1;
+        }
+        ctx.bump("fixture_tiles_compared", compared);
+        ctx.bump("fixture_ids_compared", ids.len() as u64);
+        let o = sut::observe_settings(&pm);
+        ensure!((o.tt, o.tc, o.ic, o.minz, o.maxz, o.cz) == (h.tt, h.tc, h.ic, h.min_zoom, h.max_zoom, h.center_zoom), "C03:fixture-settings", "fixture {name}: settings not reported as stored");
+        let st = [h.min_lon, h.min_lat, h.max_lon, h.max_lat, h.center_lon, h.center_lat];
+        for i in 0..6 {
+            ensure!(stored_coord_ok(st[i], o.coords[i]), "C03:fixture-coordinate", "fixture {name}: stored coordinate {}e-7 reported as {:?}", st[i], o.coords[i]);
+        }
+        let meta: serde_json::Value = if h.meta_length == 0 { serde_json::json!({}) } else { spec::decompress(h.ic, &image[h.meta_offset as usize..(h.meta_offset + h.meta_length) as usize]).ok().and_then(|b| serde_json::from_slice(&b).ok()).unwrap_or(serde_json::Value::Null) };
+        ensure!(serde_json::Value::Object(pm.meta_data.clone()) == meta, "C03:fixture-metadata", "fixture {name}: metadata not reported as stored");
+        ctx.absorb(&handle);
+        Ok(())
     }
 }
